@@ -266,7 +266,7 @@ def r_kplumb(ctx, fqs=None, floor=0):
                          "an observed_length parameter (or dna_length when rendering a k-mer) passes that K - not a "
                          "literal, another variable or the callee's default")
     n = 0
-    for fq in sorted(fqs or ctx.p.funcs):
+    for fq in sorted(fqs or ctx.reachable()):
         f = ctx.p.func(fq)
         K = find_k_term(f)
         if K is None:
@@ -364,9 +364,23 @@ def r_mask(ctx):
             full, i = True, t
         elif t[0] == 'iter' and is_call(t[1], 'builtins.range') and len(t[1][2]) == 1 and is_pow4k(t[1][2][0], K):
             full, i = True, t
+        elif t[0] == 'iter' and is_call(t[1], 'builtins.range') and len(t[1][2]) == 1 and t[1][2][0][0] == 'attr' and \
+                t[1][2][0][2] == 'size' and ((t[1][2][0][1][0] == 'v' and t[1][2][0][1][1] == mask_name) or t[1][2][0][1] in allocs):
+            full, i = True, t
         elif i is None and t[0] in ('iter', 'idx'):
             i = t
-    run.check(full, 'R-MASK', f, 'loop-covers-all-indices', loop.lineno, 'loop ranges over every index of the mask',
+    partial = False
+    if not full and is_call(it, 'builtins.range'):
+        # a recognised partial range: explicit start, or a stop that is the full count minus something
+        if len(it[2]) >= 2 and it[2][0] != ('c', 0):
+            partial = True
+        stop = it[2][-1] if len(it[2]) <= 2 else it[2][1]
+        if stop[0] == 'bin' and stop[1] == '-' and stop[3][0] == 'c':
+            partial = True
+    if not full and not partial:
+        run.undecided('R-MASK', f, 'loop-covers-all-indices', loop.lineno, 'loop range %s not recognised' % show(it)[:60])
+    else:
+      run.check(full, 'R-MASK', f, 'loop-covers-all-indices', loop.lineno, 'loop ranges over every index of the mask',
               'the discovery loop ranges over %s, not over all 4^K indices' % show(it),
               inputs='the k-mers the loop skips')
     idx_ok = tgt[0] == 'sub' and tgt[2] == i
